@@ -310,17 +310,19 @@ class DiskFile(VirtualFileContainer):
                 if data_length == 0:
                     data_length = self.calculate_file_length(starting_granule.int, fat, bytes_in_last_sector.int)
 
+                # The postamble follows the data in the granule chain (not necessarily in the buffer)
+                postamble = Postamble() if preamble.is_ml() else None
                 file_data, post_pointer = self.read_data(
                     starting_granule.int,
                     fat,
                     preamble=preamble,
-                    data_length=data_length,
+                    data_length=data_length + (postamble.length if postamble else 0),
                 )
 
-                if preamble.is_ml():
-                    postamble = Postamble()
-                    postamble.read(self.buffer, post_pointer)
+                if postamble:
+                    postamble.read(file_data, data_length)
                     exec_addr = postamble.exec_addr
+                    file_data = file_data[:data_length]
 
                 coco_file = CoCoFile(
                     name=name,
